@@ -1,17 +1,17 @@
 CONSTANTS
   NumBlocks = {0, 5, 50, 500}
   CallBlocks = {500}
-  LogBlocks = {50}
-  Extra = TRUE
-  MaxLen = 4
-  Latests = {0, 627}
+  LogBlocks = {}
+  Extra = FALSE
+  MaxLen = 3
+  Latests = {627, 1000}
   Rule = 127
   Seed = TRUE
   Guard = TRUE
   Tendermint = FALSE
-  ZeroOk = TRUE
+  ZeroOk = FALSE
   EarliestLow = TRUE
 INIT Init
 NEXT Next
-INVARIANTS OrderIndependent CoversNoNA ArchiveMonotoneNoNA ArchiveOnlyFromMembers CUIsSum
+INVARIANTS OrderIndependent CoversNoNA
 CHECK_DEADLOCK FALSE
